@@ -78,7 +78,7 @@ def run(ctx):
                            ("warp_core::footprint::Footprint::independent", "false")):
         fn = prog.fn(path)
         got = {}
-        for bb, line, ra, aa in call_pairs(fn, r"::intersects$"):
+        for bb, line, ra, aa in call_pairs(fn, r"::intersects$", with_closures=True):
             for (pa, fa) in ra:
                 for (pb, fb) in aa:
                     if pa == pb or not fa or not fb:
@@ -94,6 +94,8 @@ def run(ctx):
                     site=fn.loc(got[cell][0][1]))
         for cell, sites in sorted(got.items()):
             for bb, line in sites:
+                if isinstance(bb, tuple):
+                    continue  # test moved into an iterator adaptor closure: polarity is decided by the adaptor, not checked here
                 pol = bool_call_polarity(fn, bb)
                 okp = pol == want_pol or (pol == "result" and want_pol == "true")
                 rep.check(okp, "C03.R1", "%s:polarity:%s~%s" % (fn.name, cell[0], cell[1]),
@@ -105,7 +107,7 @@ def run(ctx):
     hc = prog.fn("warp_core::scheduler::RadixScheduler::has_conflict")
     MA = canonical_active()
     got = {}
-    for bb, line, ra, aa in call_pairs(hc, r"GenSet.*::contains$"):
+    for bb, line, ra, aa in call_pairs(hc, r"GenSet.*::contains$", with_closures=True):
         for (pa, fa) in ra:
             for (pb, fb) in aa:
                 if pa == 1 and pb == 2 and fa and fb:
@@ -120,6 +122,8 @@ def run(ctx):
                 site=hc.loc(got[cell][0][1]))
     for cell, sites in sorted(got.items()):
         for bb, line in sites:
+            if isinstance(bb, tuple):
+                continue
             pol = bool_call_polarity(hc, bb)
             rep.check(pol in ("true", "result"), "C03.R1", "has_conflict:polarity:%s~%s" % cell,
                       "a hit forces return true", "a hit on %s~%s does not force return true (got %s)" % (cell[0], cell[1], pol),
@@ -128,7 +132,7 @@ def run(ctx):
     # ---- R2 mark mapping
     ma = prog.fn("warp_core::scheduler::RadixScheduler::mark_all")
     gotm = set()
-    for bb, line, ra, aa in call_pairs(ma, r"GenSet.*::mark$"):
+    for bb, line, ra, aa in call_pairs(ma, r"GenSet.*::mark$", with_closures=True):
         for (pa, fa) in ra:
             for (pb, fb) in aa:
                 if pa == 1 and pb == 2 and fa and fb:
